@@ -1,5 +1,6 @@
 //! C19 — default categories and modifiers classify every term as documented.
 
+use hpo::annotations::AnnotationId;
 use super::common::*;
 use crate::build::*;
 use crate::gen::{self, GenCfg, NameMode};
@@ -41,12 +42,26 @@ fn build_with_setters(f: &Facts, sel: u8) -> Result<hpo::Ontology, String> {
             // the groups were customised before (any terms of the ontology): the setters must
             // replace, not extend, what they find
             let ids: Vec<hpo::HpoTermId> = o.hpos().map(|t| t.id()).collect();
+            let (mut cm, mut cc) = (std::collections::BTreeSet::new(), std::collections::BTreeSet::new());
             for (i, id) in ids.iter().enumerate() {
                 if i % 2 == 0 {
                     o.modifier_mut().insert(*id);
+                    cm.insert(id.as_u32());
                 }
                 if i % 3 != 1 {
                     o.categories_mut().insert(*id);
+                    cc.insert(id.as_u32());
+                }
+            }
+            // every term is classified under the customised groups first (a query between two changes of
+            // the groups: whatever a query remembers must not survive the setters)
+            let m = Model::new(&expected_facts(f, PathSel::Builder));
+            for t in o.hpos() {
+                let id = t.id().as_u32();
+                let got: Vec<u32> = t.categories().iter().map(|c| c.as_u32()).collect();
+                let want = m.categories_with(id, &cc);
+                if t.is_modifier() != m.is_modifier_with(id, &cm) || got != want {
+                    return Err(format!("CUSTOM groups (modifier roots {cm:?}, categories {cc:?}): term {id} is_modifier {} categories {got:?}, expected {} {want:?}", t.is_modifier(), m.is_modifier_with(id, &cm)));
                 }
             }
         }
@@ -120,6 +135,7 @@ pub fn check(c: &Case, stats: &mut Stats) -> CheckResult {
         }
         let ont = match built {
             Ok(o) => o,
+            Err(e) if e.starts_with("CUSTOM") => return fail(format!("classification/{pn}/custom-groups"), e),
             Err(e) => return fail(format!("construct/{pn}"), e),
         };
         let model = Model::new(&exp);
@@ -275,7 +291,7 @@ impl Property for C19 {
         "C19"
     }
     fn rule(&self) -> String {
-        "Generated: ontologies containing HP:0000001 and HP:0000118 with 0-5 further top-level branches, HP:0000118 usually (not always) below HP:0000001, childless top-level terms, terms below several categories and below both a modifier and a phenotype branch, detached terms; built with defaults through the Builder, own v1/v2/v3 bytes, as_bytes round trip and JAX files, or built minimally and classified by the public setters set_default_categories / set_default_modifier called in either order, alone, repeatedly, or after both groups were customised through modifier_mut() / categories_mut(); variants with one or both root terms removed. Oracle: modifier() = children(HP:1) without HP:118; categories() = that plus children(HP:118), ascending; per term is_modifier <=> the term or an ancestor is a modifier root; categories() = category terms among the term and its ancestors in ascending id order; building fails with an error (not a panic, not an ontology) iff a root term is missing. evaluations = ontologies classified. Non-trivial = some term lies in >=2 categories, there is >=1 modifier root and HP:118 has children (or: a missing-root variant); distinct = hash(facts, path).".into()
+        "Generated: ontologies containing HP:0000001 and HP:0000118 with 0-5 further top-level branches, HP:0000118 usually (not always) below HP:0000001, childless top-level terms, terms below several categories and below both a modifier and a phenotype branch, detached terms; built with defaults through the Builder, own v1/v2/v3 bytes, as_bytes round trip and JAX files, or built minimally and classified by the public setters set_default_categories / set_default_modifier called in either order, alone, repeatedly, or after both groups were customised through modifier_mut() / categories_mut() and every term was classified under the customised groups; variants with one or both root terms removed. Oracle: modifier() = children(HP:1) without HP:118; categories() = that plus children(HP:118), ascending; per term is_modifier <=> the term or an ancestor is a modifier root; categories() = category terms among the term and its ancestors in ascending id order; building fails with an error (not a panic, not an ontology) iff a root term is missing. evaluations = ontologies classified. Non-trivial = some term lies in >=2 categories, there is >=1 modifier root and HP:118 has children (or: a missing-root variant); distinct = hash(facts, path).".into()
     }
     fn assumptions(&self) -> Vec<String> {
         vec!["classification is defined on the facts: ancestors by BFS closure, roots by the documented rule of set_default_categories / set_default_modifier".into()]
